@@ -92,6 +92,29 @@ def paths_for(kind, mat):
                                                   "keyval": {"public": pem(spki, crlf=True)}}})]
             if "pk8" in mat:
                 out.append((v, {"how": "pk8", "hex": mat["pk8"].hex(), "scheme": scheme}))
+    return with_recorded_ids_later(out)
+
+
+def with_recorded_ids_later(paths):
+    return with_recorded_ids(paths)
+
+
+def with_recorded_ids(paths):
+    """for every JSON description without a `keyid` member: the same description carrying a recorded `keyid` - the id of
+    another description of the same key material (with / without the default hash-algorithm list), or an arbitrary one.
+    What a document says about its own id is not part of the key."""
+    out = list(paths)
+    for variant, spec in paths:
+        if spec["how"] != "json" or "keyid" in spec["value"]:
+            continue
+        v = spec["value"]
+        other = dict(v)
+        if "keyid_hash_algorithms" in other:
+            del other["keyid_hash_algorithms"]
+        else:
+            other["keyid_hash_algorithms"] = HA
+        for rec in (c11.ref_keyid(other), c11.ref_keyid(v), "cd" * 32):
+            out.append((variant, {"how": "json", "value": dict(v, keyid=rec)}))
     return out
 
 
